@@ -66,7 +66,43 @@ type c34Case struct {
 	// TargetProto (relay): 0 none, 1 = the protocol of the incoming stream, 2.. = index into the protocol pool; it
 	// names what the relay opens towards its target and must not influence which streams it takes
 	TargetProto int `json:"target_proto,omitempty"`
+	// ProtoVar derives the incoming protocol from the pool entry: 0 as is, otherwise a look-alike of it
+	// (prefixed, suffixed, cut, other case, doubled, padded)
+	ProtoVar int `json:"proto_var,omitempty"`
 }
+
+const nProtoVars = 9
+
+// protoVariant returns look-alike v of protocol id p
+func protoVariant(p string, v int) string {
+	switch v {
+	case 1:
+		return "x/" + p
+	case 2:
+		return p + "x"
+	case 3:
+		if len(p) > 1 {
+			return p[:len(p)-1]
+		}
+		return p + "/"
+	case 4:
+		if u := strings.ToUpper(p); u != p {
+			return u
+		}
+		return p + "0"
+	case 5:
+		return p + "/" + p
+	case 6:
+		return "bifrost/" + p
+	case 7:
+		return " " + p
+	case 8:
+		return p + "\x00"
+	}
+	return p
+}
+
+func (c c34Case) incomingProto() string { return protoVariant(protoPool[c.Proto], c.ProtoVar) }
 
 var c34Handlers = []string{"echo", "forwarding", "relay", "accept", "srpc", "pubsub", "solicit"}
 
@@ -90,6 +126,9 @@ func genC34(t *rapid.T) c34Case {
 		}
 	} else {
 		c.Proto = rapid.IntRange(0, len(protoPool)-1).Draw(t, "proto")
+	}
+	if rapid.IntRange(0, 2).Draw(t, "lookalike") == 0 {
+		c.ProtoVar = rapid.IntRange(1, nProtoVars-1).Draw(t, "protovar")
 	}
 	if rapid.IntRange(0, 2).Draw(t, "samelocal") != 0 && c.CLocal != 0 {
 		c.Local = c.CLocal
@@ -215,7 +254,10 @@ func checkC34(c c34Case) (o vstat.Outcome) {
 		o.Classes = append(o.Classes, "config-rejected")
 		return
 	}
-	proto, local, remote := protoPool[c.Proto], peerOf(c.Local), peerOf(c.Remote)
+	proto, local, remote := c.incomingProto(), peerOf(c.Local), peerOf(c.Remote)
+	if c.ProtoVar != 0 {
+		o.Classes = append(o.Classes, "look-alike-protocol")
+	}
 	expect := want(proto, local, remote)
 	// non-trivial: the incoming triple differs from a matching one in exactly one field, or matches with filters set
 	variants := 0
@@ -224,6 +266,9 @@ func checkC34(c c34Case) (o vstat.Outcome) {
 			variants++
 			break
 		}
+	}
+	if c.ProtoVar != 0 && want(protoPool[c.Proto], local, remote) != expect && variants == 0 {
+		variants++
 	}
 	for li := 0; li <= 3; li++ {
 		if want(proto, peerOf(li), remote) != expect {
@@ -265,7 +310,7 @@ func checkC34(c c34Case) (o vstat.Outcome) {
 var specC34 = vstat.Spec[c34Case]{
 	Property: "C34",
 	Rule: "7 stream handlers (echo, forwarding, relay, API accept, srpc server, pubsub controller, solicitation controller), each built from a generated configuration that passes its own Validate/constructor " +
-		"(protocol ids from a pool of 8 incl. empty/default/prefix look-alikes, local peer filter, remote/local peer lists over 3 identities), and an incoming HandleMountedStream(protocol, local, remote) incl. empty values; " +
+		"(protocol ids from a pool of 8 incl. empty/default/prefix look-alikes, the incoming id in a third of the cases a derived look-alike of a pool entry: prefixed, suffixed, cut, other case, doubled, padded; local peer filter, remote/local peer lists over 3 identities), and an incoming HandleMountedStream(protocol, local, remote) incl. empty values; " +
 		"oracle: per-handler predicate written from the configuration's documented meaning vs resolvers returned by HandleDirective on a fake directive instance; non-trivial = changing one field of the incoming triple flips the expected answer",
 	Gen:      genC34,
 	Check:    checkC34,
